@@ -10,7 +10,7 @@
 From Coq Require Import List ZArith.
 From Mamba Require Import Sortints.Base Sortints.Model Sortints.Spec Sortints.Merge
   Sortints.Simple Sortints.UnionM Sortints.Add Sortints.History
-  IntSort.Model IntSort.Perm IntSort.Sorted IntSort.Heap.
+  IntSort.Model IntSort.Perm IntSort.Sorted IntSort.Heap IntSort.Pivot IntSort.Quick.
 From Coq Require Import Sorting.Permutation.
 Import ListNotations.
 Open Scope Z_scope.
@@ -194,21 +194,17 @@ Proof.
 Qed.
 
 (* ---------------------------------------------------------------- ints.Sort *)
-(* Property: "ints.Sort orders any slice like the standard library", i.e. for every d
-       sort d = Ret (isort d)            ([isort] = the model of sort.Ints)
-   Proved in full: the result is a permutation of the input for every input, fuel and depth;
-   the statement itself for every slice of at most 12 cells; total correctness of insertionSort
-   and of heapSort (the depth-exhausted path) on every segment.
-   NOT proved: for len d > 12, that the quickSort path returns at all (no Panic/OutOfFuel) and
-   that its result is sorted; this needs doPivot's postcondition (pivot block in place, smaller
-   cells left, larger cells right), which is only exercised by correspondence. *)
-Theorem C17_sort_permutation_partial : forall d d', sort d = Ret d' -> Permutation d d'.
-Proof. exact sort_perm. Qed.
-Print Assumptions C17_sort_permutation_partial.
+(* "ints.Sort orders any slice like the standard library": [isort] is the model of sort.Ints
+   (the weakly increasing permutation of its argument, see [C17_sort_Ints_model]).  The theorem
+   holds for every input: the model never panics, never runs out of the fuel it passes itself
+   (len d), whichever of insertionSort, quickSort/doPivot, heapSort it goes through. *)
+Theorem C17_sort : forall d, sort d = Ret (isort d).
+Proof. exact sort_ok. Qed.
+Print Assumptions C17_sort.
 
-Theorem C17_sort_small_partial : forall d, len d <= 12 -> sort d = Ret (isort d).
-Proof. exact sort_small. Qed.
-Print Assumptions C17_sort_small_partial.
+Theorem C17_sort_Ints_model : forall d, Inc (isort d) /\ Permutation d (isort d).
+Proof. exact (fun d => conj (isort_Inc d) (isort_perm d)). Qed.
+Print Assumptions C17_sort_Ints_model.
 
 Example C17_sort_nonvacuous :
   sort [5; -2; 9; 5; 0; 7; 7; 1] = Ret [-2; 0; 1; 5; 5; 7; 7; 9] /\
@@ -216,8 +212,28 @@ Example C17_sort_nonvacuous :
   Ret [0; 1; 2; 3; 4; 5; 6; 7; 8; 9; 10; 11; 12; 13; 14; 15; 16; 17; 18; 19; 20].
 Proof. split; vm_compute; reflexivity. Qed.
 
-(* [get d i] = data[i]; [sorted_seg d a b] = data[a..b-1] is weakly increasing;
-   [same_out d d' a b] = every cell outside a..b-1 is unchanged *)
+(* The pieces.  [get d i] = data[i]; [sorted_seg d a b] = data[a..b-1] is weakly increasing;
+   [same_out d d' a b] = every cell outside a..b-1 is unchanged. *)
+Theorem C17_sort_permutation : forall d d', sort d = Ret d' -> Permutation d d'.
+Proof. exact sort_perm. Qed.
+Print Assumptions C17_sort_permutation.
+
+Theorem C17_quick_sort : forall fuel d a b depth,
+  0 <= a <= b -> b <= len d -> (Z.to_nat (b - a) <= fuel)%nat ->
+  exists d', quick_sort fuel d a b depth = Ret d' /\ len d' = len d /\
+             sorted_seg d' a b /\ same_out d d' a b.
+Proof. exact quick_sort_ok. Qed.
+Print Assumptions C17_quick_sort.
+
+Theorem C17_do_pivot : forall d lo hi, 0 <= lo -> hi <= len d -> hi - lo > 12 ->
+  exists d' mlo mhi pv, do_pivot d lo hi = Ret (d', mlo, mhi) /\
+    len d' = len d /\ same_out d d' lo hi /\ lo <= mlo < mhi /\ mhi <= hi /\
+    (forall k, lo <= k < mlo -> get d' k <= pv) /\
+    (forall k, mlo <= k < mhi -> get d' k = pv) /\
+    (forall k, mhi <= k < hi -> pv <= get d' k).
+Proof. exact do_pivot_ok. Qed.
+Print Assumptions C17_do_pivot.
+
 Theorem C17_insertion_sort : forall d a b, 0 <= a <= b -> b <= len d ->
   exists d', insertion_sort d a b = Ret d' /\ len d' = len d /\
              sorted_seg d' a b /\ same_out d d' a b.
@@ -230,7 +246,9 @@ Theorem C17_heap_sort : forall d a b, 0 <= a <= b -> b <= len d ->
 Proof. exact heap_sort_ok. Qed.
 Print Assumptions C17_heap_sort.
 
-Example C17_heap_sort_nonvacuous :
+Example C17_sort_pieces_nonvacuous :
   heap_sort [99; 5; -2; 9; 5; 0; 7; -50] 1 7 = Ret [99; -2; 0; 5; 5; 7; 9; -50] /\
-  insertion_sort [99; 5; -2; 9; 5; 0; 7; -50] 1 7 = Ret [99; -2; 0; 5; 5; 7; 9; -50].
-Proof. split; vm_compute; reflexivity. Qed.
+  insertion_sort [99; 5; -2; 9; 5; 0; 7; -50] 1 7 = Ret [99; -2; 0; 5; 5; 7; 9; -50] /\
+  do_pivot [8; 3; 11; 3; 7; 1; 9; 2; 12; 6; 4; 10; 5; 0] 0 14 =
+    Ret ([1; 0; 2; 3; 7; 11; 9; 3; 12; 6; 4; 10; 5; 8], 2, 3).
+Proof. split; [|split]; vm_compute; reflexivity. Qed.
